@@ -302,6 +302,10 @@ func (w *world) callMods(kg *fgen, x ssa.CallInstruction, ms *modset) {
 		ms.allocs = true
 		return
 	}
+	if callee.Blocks == nil && w.isLibrary(callee) {
+		ms.union(w.libraryFrame(kg, callee, c.Args))
+		return
+	}
 	cm := w.modsetOf(callee)
 	if cm.all {
 		ms.all = true
@@ -309,6 +313,50 @@ func (w *world) callMods(kg *fgen, x ssa.CallInstruction, ms *modset) {
 		return
 	}
 	ms.union(cm)
+}
+
+// isLibrary: the function belongs to a package outside the repository module.
+func (w *world) isLibrary(fn *ssa.Function) bool {
+	pp, _ := funcKey(fn)
+	return pp != "" && pp != modPath && !strings.HasPrefix(pp, modPath+"/")
+}
+
+// libraryFrame is the default frame assumed for an uncontracted library function:
+// it writes only memory reachable from its pointer/slice/map arguments (one level),
+// treats interface-typed arguments as read-only, and may run closures passed to it.
+func (w *world) libraryFrame(kg *fgen, callee *ssa.Function, args []ssa.Value) *modset {
+	ms := newModset()
+	w.libFrames[callee.String()] = true
+	ms.allocs = true
+	for _, a := range args {
+		if mc, ok := a.(*ssa.MakeClosure); ok {
+			if f, ok := mc.Fn.(*ssa.Function); ok {
+				ms.union(w.modsetOf(f))
+			}
+			continue
+		}
+		switch u := a.Type().Underlying().(type) {
+		case *types.Slice:
+			sl := &sloc{root: rootElem, rootT: kg.elemKeyName(u.Elem()), typ: u.Elem()}
+			kg.slocLeaves(sl, nil, u.Elem(), ms.any)
+		case *types.Pointer:
+			sl := kg.ptrSloc(u.Elem(), false)
+			kg.slocLeaves(sl, sl.path, sl.typ, ms.any)
+		case *types.Map:
+			h, v, l := kg.mapKeys(u)
+			ms.any[h] = modEntry{rootField, nil, u}
+			ms.any[v] = modEntry{rootField, nil, u}
+			ms.any[l] = modEntry{rootField, nil, u}
+		case *types.Signature:
+			if f, isFn := a.(*ssa.Function); isFn {
+				ms.union(w.modsetOf(f))
+			} else {
+				ms.all = true
+				ms.why = "function value passed to library function " + callee.String()
+			}
+		}
+	}
+	return ms
 }
 
 // declMods adds the declared modifies set of a contract (coarse: whole heap keys).
